@@ -299,10 +299,12 @@ def trace_digest(recs):
 
 
 def write_evidence(pid, tier, seed, coverage, wall, violations=0, assumptions=(), level="model_checking"):
-    os.makedirs(EVID, exist_ok=True)
+    # extension modules (ids X..: behaviour beyond the listed properties) keep their evidence apart
+    evid = EVID if not pid.startswith("X") else os.path.join(VERIF, "evidence_ext")
+    os.makedirs(evid, exist_ok=True)
     ev = {"property_id": pid, "tier": tier, "seed": int(seed), "level": level, "coverage": coverage,
           "assumptions": list(assumptions), "wall_s": round(wall, 2), "violations": int(violations)}
-    tmp = os.path.join(EVID, ".%s.json.tmp" % pid)
+    tmp = os.path.join(evid, ".%s.json.tmp" % pid)
     with open(tmp, "w") as fh:
         json.dump(ev, fh, indent=1, sort_keys=True)
-    os.replace(tmp, os.path.join(EVID, pid + ".json"))
+    os.replace(tmp, os.path.join(evid, pid + ".json"))
